@@ -164,11 +164,17 @@ func GHASH(H []byte, A []byte, C []byte) (X []byte) {
 	}
 
 	//i=m+n
-	zeros = make([]byte, (128-u)/8)
-	Cn := make([]byte, u/8)
-	copy(Cn[:], C[(n-1)*BlockSize:])
-	Cn = append(Cn, zeros...)
-	copy(X[(m+n)*BlockSize:(m+n)*BlockSize+BlockSize], multiplication(addition(X[(m+n-1)*BlockSize:(m+n-1)*BlockSize+BlockSize], Cn), H))
+	if len(C) == 0 {
+		// an empty C contributes no block: the state is carried over unchanged
+		copy(X[(m+n)*BlockSize:(m+n)*BlockSize+BlockSize], X[(m+n-1)*BlockSize:(m+n-1)*BlockSize+BlockSize])
+	} else {
+		zeros = make([]byte, (128-u)/8)
+		Cn := make([]byte, u/8)
+		copy(Cn[:], C[(n-1)*BlockSize:])
+		Cn = append(Cn, zeros...)
+		copy(X[(m+n)*BlockSize:(m+n)*BlockSize+BlockSize], multiplication(addition(X[(m+n-1)*BlockSize:(m+n-1)*BlockSize+BlockSize], Cn), H))
+	}
+
 
 	//i=m+n+1
 	var lenAB []byte
@@ -184,8 +190,9 @@ func GHASH(H []byte, A []byte, C []byte) (X []byte) {
 		data[7] = byte((len >> 0) & 0xff)
 		return data
 	}
-	lenAB = append(lenAB, calculateLenToBytes(len(A))...)
-	lenAB = append(lenAB, calculateLenToBytes(len(C))...)
+	// the length block holds the bit lengths of A and C
+	lenAB = append(lenAB, calculateLenToBytes(len(A)*8)...)
+	lenAB = append(lenAB, calculateLenToBytes(len(C)*8)...)
 	copy(X[(m+n+1)*BlockSize:(m+n+1)*BlockSize+BlockSize], multiplication(addition(X[(m+n)*BlockSize:(m+n)*BlockSize+BlockSize], lenAB), H))
 	return X[(m+n+1)*BlockSize : (m+n+1)*BlockSize+BlockSize]
 }
